@@ -83,6 +83,12 @@ D_CONV = [
           "floor shift / wrap / clamp, lost-bits direction, 1296 layout pairs x all values", "MC_Conv", "MC_Conv.cfg", "int"),
     d_tlc("MC_Conv_refute: without the sign test on the cast", "MC_Conv", "MC_Conv_refute.cfg", "int", expect="violated"),
 ]
+CONV_CFGS = ['I0F128_i8', 'I0F128_u128', 'U0F128_I128F0', 'u8_U0F128', 'i8_I0F128', 'U128F0_U0F128', 'I128F0_I0F128', 'I64F64_I32F32', 'I32F32_I64F64', 'U64F64_I64F64', 'I64F64_U64F64', 'I1F127_I127F1', 'I127F1_I1F127', 'U1F127_U128F0', 'I1F127_I128F0', 'I16F16_U8F8', 'U8F8_I16F16', 'I8F8_I0F16', 'i64_I40F88', 'u128_I40F88', 'I40F88_i64', 'I40F88_u128', 'I4F4_I0F128', 'I0F8_I128F0']
+CONV_QUICK = ['I0F128_i8', 'u8_U0F128', 'I64F64_I32F32', 'U64F64_I64F64', 'I1F127_I127F1', 'I127F1_I1F127', 'I40F88_u128', 'I16F16_U8F8']
+D_CONVINT = [d_apa("ConvInt (Apalache, EVERY source value, %s): to_fixed_helper's shift arms + overflowing_/saturating_from_fixed as coded = "
+                   "floor(v * 2^(fd-fs)) wrapped, flagged and clamped" % n.replace("_", " -> "), "AP_ConvInt.tla", "C_" + n, "AllOk",
+                   thorough_only=(n not in CONV_QUICK)) for n in CONV_CFGS] + [
+             d_apa("ConvInt: non-vacuity, I64F64 -> I32F32 can overflow", "AP_ConvInt.tla", "C_I64F64_I32F32", "NeverOverflows", expect="violated")]
 def d_mathalg(pid, what):
     return d_tlc("MC_MathAlg (%s): the transcribed algorithms of transcendental.rs (tla/alg/MathAlg.tla, fidelity to the code measured by "
                  "./check G06) meet the acceptance rules of C12 / %s / C17 for EVERY operand of I5F5, I5F7, I9F3 (and U4F6 for sqrt)" % (what, pid),
@@ -118,7 +124,7 @@ D_TRIG = [
      for ci, n, to in [("CInit23", "I9F23", False), ("CInit64", "f = 64", False), ("CInit32", "f = 32", True), ("CInit88", "f = 88", True)]] + [
     d_apa("CordicZ: non-vacuity, the residual is not always zero", "AP_CordicZ.tla", "CInit23", "Exact", expect="violated")]
 DESIGNS = {
-    "C01": [D_SEM] + D_MUL + D_DIV + D_SEM_DEEP, "C02": [D_SEM] + D_MUL[:2] + D_MUL[6:11] + D_SEM_DEEP, "C03": [D_SEM] + D_CMP + D_FLOAT[:1], "C04": [D_SEM] + D_CONV, "C05": D_FLOAT,
+    "C01": [D_SEM] + D_MUL + D_DIV + D_SEM_DEEP, "C02": [D_SEM] + D_MUL[:2] + D_MUL[6:11] + D_SEM_DEEP, "C03": [D_SEM] + D_CMP + D_FLOAT[:1], "C04": [D_SEM] + D_CONV + D_CONVINT, "C05": D_FLOAT,
     "C06": [D_SEM, d_tlc("MC_Round: rounding methods as coded (masks, 0/1 integer-bit special cases) = exact roundings, every value, "
                          "68 layouts of widths 2..6 and 8", "MC_Round", "MC_Round.cfg", "int"),
             d_tlc("MC_Round (deep): widths 7, 9, 10, 12", "MC_Round", "MC_Round_deep.cfg", "int", thorough_only=True)] + D_ROUNDINT + D_SEM_DEEP,
